@@ -132,8 +132,9 @@ def run(A, rep, tier):
         def visit_Name(self, n):
             return ast.Name(id="ID", ctx=ast.Load()) if n.id in id_names else n
     import copy as _copy
+    from ..analysis import pathparts as _pp
     loc_text = norm(_Id().visit(_copy.deepcopy(st[0].value))) if len(st) == 1 else "?"
-    rep.check(len(st) == 1 and st[0] in bi.node.body and loc_text in ("pathlib.Path(ID.path, f.task_output_dir(ID))", "pathlib.Path(ID.path) / f.task_output_dir(ID)", "ID.path / f.task_output_dir(ID)"), "RX2", "location = path / dirname", bi.node,
+    rep.check(len(st) == 1 and st[0] in bi.node.body and _pp(_Id().visit(_copy.deepcopy(st[0].value))) == ["ID.path", "f.task_output_dir(ID)"], "RX2", "location = path / dirname", bi.node,
               "", "the output location is not identifier.path / task_output_dir(identifier)")
     go = A.fn("task_types.base.TaskType.get_output_path")
     r = [x for x in walk_local(go.node) if isinstance(x, ast.Return)]
